@@ -187,7 +187,7 @@ func runStreamBehaviour(bi int, b sbeh, st *replayStats) (rec *recorder, conf []
 	rec = &recorder{}
 	w := newWorld(b.Subs, b.Init)
 	s := sched.New()
-	s.Watchdog = 3 * time.Second
+	s.Watchdog = 10 * time.Second
 	s.ControlAll()
 	s.OnlyPoints(b.Gates...)
 	names := make([]string, 0, len(b.Progs))
@@ -246,7 +246,7 @@ func runStreamBehaviour(bi int, b sbeh, st *replayStats) (rec *recorder, conf []
 		}
 	}
 	s.FreeRun()
-	if !s.Join(5 * time.Second) {
+	if !s.Join(15 * time.Second) {
 		st.Watchdog++
 	}
 	s.Close()
@@ -267,7 +267,7 @@ func sreplay(behaviours []sbeh, hw, cw *vtrace.Writer, st *replayStats) {
 		var conf []map[string]any
 		var status, pred int
 		var note string
-		for attempt := 0; attempt < 12; attempt++ {
+		for attempt := 0; attempt < 48; attempt++ {
 			rec, conf, status, note, pred = runStreamBehaviour(bi, b, st)
 			if status != stOrder {
 				break
